@@ -99,6 +99,13 @@ def gen_hps(rng: random.Random, *, callables: float = 0.35,
         lambda: rng.choice([0.1, 0.5, 1.0, 0.02]),
         lambda: {'f': 'cycle', 'vals': [rng.choice([0.1, 1.0, 0.03, 0.4])
                                         for _ in range(rng.randint(2, 3))]})
+    # constants given as Python ints where a float is the usual spelling
+    # (lr=1, kl_clip=2, ...): legal, and arithmetic on them must not depend
+    # on the type of the literal
+    for name, ints in (('lr', [1]), ('kl_clip', [1, 2]),
+                       ('factor_decay', [1]), ('damping', [1])):
+        if isinstance(hps[name].get('c'), float) and rng.random() < 0.1:
+            hps[name] = {'c': rng.choice(ints)}
     return hps
 
 
@@ -213,7 +220,15 @@ def gen_ops(rng: random.Random, hps: dict[str, Any],
             rop = {'op': 'restart', 'compute_inverses': ci}
             if rng.random() < 0.3:
                 rop['try_bad'] = rng.choice(['drop', 'extra'])
+            if rng.random() < 0.5:
+                rop['hp_shift'] = rng.choice(['scale', 'none'])
             ops.append(rop)
+            if rng.random() < 0.3:
+                # train on, then roll back to the SAME checkpoint again
+                for _ in range(rng.randint(1, 2)):
+                    ops.append({'op': 'train', 'it': it})
+                    it += 1
+                ops.append({k: v for k, v in rop.items() if k != 'try_bad'})
         else:
             op: dict[str, Any] = {'op': 'train', 'it': it}
             if rng.random() < 0.06:
@@ -289,6 +304,7 @@ def gen_train_plan(rng: random.Random, *, tier: str = 'quick',
                 'latency': rng.choice([0.0, 1e-4, 1e-2]),
                 'bandwidth': rng.choice([1e6, 1e9]),
                 'sched_seed': rng.randrange(1 << 30),
+                'mem_ckpt': restarts > 0 and rng.random() < 0.5,
             },
         }
         r = rng.random()
